@@ -2,5 +2,5 @@
 # seedall.sh [ids...]: runs seedtest.sh for every stored seeded change (seeded/<prop>-<k>), 8 at a time; results in .work/seedres/
 cd /verif; mkdir -p .work/seedres
 ids=${@:-$(ls seeded)}
-printf "%s\n" $ids | xargs -P 8 -I{} sh -c 'p=$(echo {} | cut -d- -f1); ./seedtest.sh $p seeded/{} > .work/seedres/{}.txt 2>&1'
+printf "%s\n" $ids | xargs -P 4 -I{} sh -c 'p=$(echo {} | cut -d- -f1); ./seedtest.sh $p seeded/{} > .work/seedres/{}.txt 2>&1'
 grep -H "RESULT check\|patch-does-not-apply\|suite-FAILS\|unexpected\|3-way" .work/seedres/*.txt
